@@ -228,20 +228,23 @@ Proof.
   inversion Hstep; subst gx. exists ss, f2, g1, f, g'. repeat split; assumption.
 Qed.
 
+Lemma ok_stream_facts :
+  h_dsize ok_hdr = N.of_nat (List.length (ser_records ok_stream)) /\
+  starts_with_file_id ok_stream = true /\ stream_wf ok_stream = true /\ no_time_quirk ok_stream = true.
+Proof. split; [reflexivity|]. split; [vm_compute; reflexivity|]. split; vm_compute; reflexivity. Qed.
+
 Example ok_chain_in_domain :
   chain_domain g_init ok_chain /\ rd_data ok_chain_reader = chain_bytes ok_chain /\ rd_term ok_chain_reader = TEOF /\
   (List.length (rd_data ok_chain_reader) + List.length (rd_sched ok_chain_reader) < 400)%nat.
 Proof.
   split; [|split; [vm_compute; reflexivity|split; [reflexivity|vm_compute; lia]]].
   unfold ok_chain.
+  destruct ok_stream_facts as (F1 & F2 & F3 & F4).
   destruct (file_step ok_hdr g_init ok_stream) as [ga|] eqn:E1; [|vm_compute in E1; discriminate].
-  apply (chain_domain_step ok_hdr g_init ok_stream ga); try exact ok_hdr_wf; try (vm_compute; reflexivity); [exact E1|].
-  vm_compute in E1. injection E1 as <-.
-  match goal with |- chain_domain ?g0 _ =>
-    destruct (file_step ok_hdr g0 ok_stream) as [gb|] eqn:E2; [|vm_compute in E2; discriminate];
-    apply (chain_domain_step ok_hdr g0 ok_stream gb); try exact ok_hdr_wf; try (vm_compute; reflexivity); [exact E2|]
-  end.
-  exact I.
+  apply (chain_domain_step ok_hdr g_init ok_stream ga _ ok_hdr_wf F1 F2 F3 F4 E1).
+  destruct (file_step ok_hdr ga ok_stream) as [gb|] eqn:E2.
+  - apply (chain_domain_step ok_hdr ga ok_stream gb _ ok_hdr_wf F1 F2 F3 F4 E2). exact I.
+  - exfalso. vm_compute in E1. injection E1 as <-. vm_compute in E2. discriminate E2.
 Qed.
 
 Example DecodeChained_example :
